@@ -214,7 +214,7 @@ def run(cfg, segs=None, perm_seed=None, perm_kinds=None, budget=None, full=True,
                     rec["rows"] = []
                 ev = sim.monitor.events
                 if len(ev) > state["log"]:
-                    rec["newlog"] = log_view(ev, state["log"])
+                    rec["newlog"] = log_view(ev, state["log"], env.ts)
                     state["log"] = len(ev)
                 else:
                     rec["newlog"] = []
@@ -285,7 +285,7 @@ def run(cfg, segs=None, perm_seed=None, perm_kinds=None, budget=None, full=True,
             end["st"] = st
             df = sim.monitor.df
             end["rows"] = [row_view(df, i) for i in range(len(df))]
-            end["log"] = log_view(sim.monitor.events, 0)
+            end["log"] = log_view(sim.monitor.events, 0, env.ts)
             end["loglen_at_last_step"] = state["log"]
             tt = []
             try:
